@@ -398,6 +398,19 @@ def readCores (o : Opts) (bs : List Block) (assign : List Nat) (g : Nat) : List 
   (List.range g).map fun k =>
     ((bs.zip assign).filter (fun p => p.2 == k)).flatMap (fun p => (readBlock o p.1).out)
 
+/-- The order in which the callback sees elements when several goroutines call it: some interleaving of
+the per-goroutine streams (each goroutine calls `emit` sequentially; nothing orders calls of different
+goroutines). `Shuffle streams out`: `out` is such an interleaving, using up every stream. -/
+inductive Shuffle {α : Type} : List (List α) → List α → Prop where
+  | nil {ss : List (List α)} : (∀ s ∈ ss, s = []) → Shuffle ss []
+  | cons {ss : List (List α)} {k : Nat} {x : α} {rest out : List α} :
+      ss[k]? = some (x :: rest) → Shuffle (ss.set k rest) out → Shuffle ss (x :: out)
+
+/-- the input class of the known finding `cores-gt1-cross-block-order`: more than one reader goroutine and
+more than one block in the file — only then can the callback see the elements in an order other than the
+file's -/
+def crossBlockClass (g nblocks : Nat) : Bool := decide (g > 1) && decide (nblocks > 1)
+
 /-! ## `dense_tags_aligned`: the KeysVals cursor -/
 
 /-- what is left of `keysVals` (i.e. `keysVals[j:]` for the cursor `j` of `readDenseNodes`) after the tag
